@@ -60,3 +60,60 @@ CLAIMS["C04"] = dict(
          "equal what was sent, the registration must be marked used, and every event log must be a behaviour of the spec.",
     note=_CLASSIFY_NOTE,
 )
+CLAIMS["C07"] = dict(
+    category="model_checking",
+    technique="TLA+ spec Admission.tla: TLC over the full 2 064 384-row admission table (declarative statement vs staged transcription, necessity of every condition) + execution of TLC-emitted rows on the real parseRegMessage/ingestRegistration",
+    text="The admission rule is written twice in Admission.tla (the property's statement and a staged transcription of the code) and TLC checks "
+         "on every row that they agree, that probes are sent only when required, sharing happens at most once / only after the probe / marked "
+         "pre-scanned, and that every condition is necessary. Every admitted row plus all single-condition neighbours (17 920) and 20 000 "
+         "(quick) / 400 000 (thorough) seeded random rows are executed on the real ingest with real C2SWrapper bytes; visible / tracked / "
+         "announced / probes / shares must equal the specification's outcome.",
+    note="Library version = current, transport min; registrar overrides / prefix parameters are C12 / C02. 'Complete' read as in DESIGN section 8. "
+         "Liveness tester, detector announcements and the peer-station endpoint are in-process stand-ins.",
+)
+CLAIMS["C05"] = dict(
+    category="model_checking",
+    technique="TLA+ spec Relay.tla: TLC exhaustive (10 invariants + liveness under fairness) + replay of every one-/two-fault behaviour into the real halfPipe/Proxy with scripted connections + trace validation of seeded fault scripts",
+    text="Relay.tla models the two half-pipe processes call by call (SetDeadline, Read, Write, Close) with environment-chosen outcomes; TLC checks "
+         "PrefixFidelity, NothingReadIsLost (incl. data returned with an error), CountsMatch, BothClosed, gauge balance and termination. Every "
+         "complete behaviour with <=1 fault (4 185, quick) / <=2 faults (77 337, thorough) is replayed on the real halfPipe pair wired as Proxy "
+         "wires them and on the real Proxy with a loopback covert (goroutine leak, session gauge, byte counts), and seeded random fault scripts "
+         "recorded from the real code are validated by Trace_Relay.",
+    note="Scripted connections return the scripted outcome for the k-th call; the covert side of real-Proxy runs is a loopback socket whose calls are "
+         "silent steps; real 30 s / 2 min deadlines are checked as SetDeadline arguments, not awaited.",
+)
+CLAIMS["C17"] = dict(
+    category="model_checking",
+    technique="TLA+ spec LogTaint.tla: TLC enumeration of site x error kind x wrapping x outcome x family taint flows (NoTaintAtSink) + replay of every case on the real handleNewTCPConn / Proxy / halfPipe / ingest with log capture",
+    text="LogTaint.tla models every I/O call site of classification and relay, the error shapes the network stack produces and the sanitiser as a "
+         "function on kinds; TLC checks NoTaintAtSink (the as-implemented sanitiser instance violates it and predicts exactly the leaking paths). "
+         "All 4 734 cases are replayed on the real code with a scripted connection whose RemoteAddr is a distinctive IPv4 / IPv6 / v4-mapped "
+         "address and which fails the k-th call with a realistically built *net.OpError; stdout, the log package and every Logger are captured and "
+         "searched for every textual form of the address; with LOG_CLIENT_IP on the address must appear (non-vacuity).",
+    note="Default log level only (Warn/Debug/Trace output is outside the property); handleNewConn (needs a real TCPConn), SetLinger and PROXY-header "
+         "errors are not driven. Known finding: the ingest covert-drop log line names the registrant (known_findings.json).",
+)
+CLAIMS["C14"] = dict(
+    category="model_checking",
+    technique="TLA+ spec Phantom.tla: TLC exhaustive (Contained, WellFormed, RandPortFromSubnet, Pure over interleavings of 2-3 selectors) + replay of every enumerated (configuration, id) case into the real selectors + trace validation of concurrent selections",
+    text="Phantom.tla transcribes the three selection algorithms (v0, v1 varint, v2+ HKDF) and the weighted choice as integer arithmetic over small "
+         "configurations (every CIDR size 1..8, /32, /128, overlapping / duplicate subnets, zero / equal weights) and models the legacy paths' "
+         "process-global RNG as interleaved seed/draw steps; TLC checks containment, well-formedness, port-randomisation flag and purity (the "
+         "global-RNG and minimal-byte-width instances violate, as they must). Every TLC case is reached on the real code with a searched seed "
+         "(2 706/2 706) and compared; generated large configurations are checked against a net/netip oracle; 378 000 (quick) ungated concurrent "
+         "selections are compared with serial results and validated by Trace_Phantom.",
+    note="Real-code interleavings of the legacy path are ungated stress (no hook); blocks too large for TLC integers are checked by execution only; "
+         "cryptographic draws are recomputed by an independent HKDF/HMAC interpreter.",
+)
+CLAIMS["C01"] = dict(
+    category="exploration",
+    technique="TLA+ spec Derive.tla (ordered draw lists and port rule of client and station per libver x transport x params: Agreement checked by TLC) + execution of every tuple on real station code, real client code and an independent interpreter of the spec's draw list; golden vectors",
+    text="Derive.tla states, per (library version, transport, parameter class, subnet randomisation, registrar override), which labelled HKDF/HMAC "
+         "draws client and station make in which order and the port rule; TLC checks client = station on all 1 170 tuples (two broken instances "
+         "violate). Each applicable tuple x 17 subnet configurations x 10 (quick) seeded secrets x both families is executed three ways - real "
+         "station (NewRegistrationC2SWrapper, transports' identifiers/keys/ports), real client code (SelectPhantom, internal/compatability v0/v1, "
+         "client transports) and an independent crypto/hmac-only interpreter of the draw list TLC printed - and compared field by field, plus 608 "
+         "golden rows that pin the derivation.",
+    note="Exploration level: equality of cryptographic outputs is decided by execution on sampled secrets, not by TLC; the gotapdance end-to-end path "
+         "is not driven; ECDSA certificate keys are pinned by golden vectors only.",
+)
